@@ -56,3 +56,18 @@ Fixpoint chk_events (acc : list str) (ss : list st) (es : list ev) : bool :=
   end.
 Definition chk_trace (stops : list str) (limit : nat) (ts : list (bool * str)) (es : list ev) : bool :=
   chk_events [] (trace stops limit init (map mk_tok ts)) es.
+
+(** end-of-sequence paths executed on a scripted pending state (harness c14lr: the REAL llamarunner flushPending,
+    removeSequence and the limit check of processBatch): what is sent, what stays pending, whether the channel closes *)
+Definition is_fin (s : st) : bool := match fin s with Some _ => true | None => false end.
+Definition st_of (pend : list str) (np : nat) : st := mkSt pend [] np None [].
+Definition chk_seg_flush (pend emit pend' : list str) : bool :=
+  let s := flush (st_of pend 0) in eqb_strs (out s) emit && eqb_strs (pending s) pend'.
+Definition chk_seg_eos (pend emit pend' : list str) (dn : bool) : bool :=
+  let s := finish RStop (st_of pend 0) in eqb_strs (out s) emit && eqb_strs (pending s) pend' && Bool.eqb (is_fin s) dn.
+Definition chk_seg_stop (stops pend emit pend' : list str) (dn : bool) : bool :=
+  let p := match find_stop (concat pend) stops with Some stop => fst (truncate_stop pend stop) | None => pend end in
+  let s := finish RStop (st_of p 0) in eqb_strs (out s) emit && eqb_strs (pending s) pend' && Bool.eqb (is_fin s) dn.
+Definition chk_seg_settle (limit : nat) (pend : list str) (np : nat) (emit pend' : list str) (dn : bool) (rc : N) : bool :=
+  let s := settle limit (st_of pend np) in
+  eqb_strs (out s) emit && eqb_strs (pending s) pend' && Bool.eqb (is_fin s) dn && N.eqb (reason_code (fin s)) rc.
